@@ -16,15 +16,22 @@ def cast_constant_of_shape(op, shape, scalar, dtype):
 
 
 def fused_cast_constant_of_shape(op, shape: ir.Value, scalar: ir.Attr, dtype: ir.Attr, **_):
-    # Cast scalar (a TensorProto attribute) to the specified dtype
-    scalar_value = scalar.value.numpy().item()
-    cast_value = ir.tensor([scalar_value], dtype=ir.DataType(dtype.as_int()))
+    # Cast scalar (a TensorProto attribute) to the specified dtype the way Cast does
+    # (numpy astype); building the tensor from the Python scalar raises OverflowError
+    # for integers outside the target range (e.g. -1 -> uint8).
+    target = ir.DataType(dtype.as_int())
+    cast_value = ir.tensor(scalar.value.numpy().reshape(-1)[:1].astype(target.numpy()))
     return op.ConstantOfShape(shape, value=cast_value)
 
 
 def cast_constant_of_shape_without_value(op, shape, dtype):
-    constant = op.ConstantOfShape(shape)
+    constant = op.ConstantOfShape(shape, _outputs=["constant"])
     return op.Cast(constant, to=dtype)
+
+
+def _constant_of_shape_has_no_value(context, constant, **_) -> bool:
+    # The pattern also matches nodes that carry a `value` attribute; those are not zeros.
+    return "value" not in constant.producer().attributes
 
 
 def fused_cast_constant_of_shape_without_value(op, shape, dtype, **_):
@@ -35,7 +42,9 @@ def fused_cast_constant_of_shape_without_value(op, shape, dtype, **_):
 cast_constant_of_shape_rule = RewriteRule(cast_constant_of_shape, fused_cast_constant_of_shape)
 
 cast_constant_of_shape_without_value_rule = RewriteRule(
-    cast_constant_of_shape_without_value, fused_cast_constant_of_shape_without_value
+    cast_constant_of_shape_without_value,
+    fused_cast_constant_of_shape_without_value,
+    _constant_of_shape_has_no_value,
 )
 
 rules = RewriteRuleSet(
